@@ -372,6 +372,7 @@ def corpus_program():
         {"t": "c_value_int", "args": []},
         {"t": "c_value_longlong", "args": []},
         {"t": "init_str", "args": []},
+        {"t": "linreg", "args": [3]},
     ]
     return {"sources": src, "steps": steps}
 
@@ -381,9 +382,9 @@ def run(run: Run) -> int:
     quick = run.tier == "quick"
     rng = run.rng
     world = World()
-    ck = Checker(run, world, pfx="C07")
+    ck = Checker(run, world, pfx="C07", report_raises=False)
     c7 = C07(run, world, ck)
-    n_prog = 10 if quick else 80
+    n_prog = 30 if quick else 250
     corpus_stats = {}
     try:
         progs = [corpus_program()] + [gen_c07_program(rng, world.tmpl) for _ in range(n_prog)]
@@ -416,7 +417,7 @@ def run(run: Run) -> int:
         "programs": len(progs), "node_constructions_checked": ck.n_exec,
         "valued_vars": c7.stats["valued_vars"], "runtime_comparisons": c7.stats["runtime_comparisons"],
         "right_output_fault_cases": c7.stats["right_output_cases"], "unsafe_casts": c7.stats["unsafe_casts"],
-        "other_counts": dict(c7.stats),
+        "other_counts": dict(c7.stats), "constructions_that_raised": ck.n_raises,
         "corpus": corpus_stats,
         "input_distribution": dict(ck.hist, corpus_operators=dict(c7.hist_ops.most_common(40))),
         "samples": ck.samples,
@@ -436,12 +437,12 @@ def replay(run: Run, case) -> int:
     try:
         if "case" in d and "module" in d:
             world.inj.uninstall()
-            c7 = C07(run, world, Checker(run, world, pfx="C07"))
+            c7 = C07(run, world, Checker(run, world, pfx="C07", report_raises=False))
             print(c7.corpus(d["module"], d["backend"], False, run.rng))
         else:
             prog = d["program"]
             plan = {int(k): v for k, v in d.get("plan", {}).items()}
-            ck = Checker(run, world, pfx="C07")
+            ck = Checker(run, world, pfx="C07", report_raises=False)
             c7 = C07(run, world, ck)
             base = run_program(world, prog, d["backend"])
             for p in range(len(prog["steps"])):
